@@ -25,6 +25,10 @@ enum Scenario {
     ClientAbandon { kind: Kind, k: usize, queued: bool },
     /// the same AsyncClient scenario with `Cli::call` going through forward_message (all / even tags)
     WithApi(clients::Api, Box<Scenario>),
+    /// as ClientAbandon (next call issued afterwards), and after that call one more sender of another kind
+    ClientAbandonThen { kind: Kind, k: usize, then: Then },
+    /// many concurrent writers (calls, every fourth a notify) with pads cycling over the boundary classes
+    ManyWriters { kind: Kind, n: usize, stall: Option<usize> },
     /// AsyncServer with a write timeout: response stalls after `k` bytes past the deadline
     AsyncServerWriteTimeout { k: usize, pipelined: bool },
     /// AsyncServer, pipelined requests, response stream stalled after `k` bytes then released;
@@ -39,6 +43,14 @@ enum Scenario {
     /// blocking Client over TCP with a write timeout: a 24 MiB notify is interrupted by a peer
     /// that is not reading; the peer then resumes and the client sends again
     BlockingClientWriteTimeout,
+}
+
+#[derive(Clone, Copy, Debug, PartialEq)]
+enum Then {
+    Notify,
+    /// AsyncClient::forward_message with a notify frame (the relay path)
+    ForwardNotify,
+    Batch,
 }
 
 fn scenarios(tier: Tier) -> Vec<Scenario> {
@@ -95,6 +107,21 @@ fn scenarios(tier: Tier) -> Vec<Scenario> {
         if matches!(&sc, Scenario::ClientWriters { kind: Kind::Async, .. } | Scenario::ClientAbandon { kind: Kind::Async, .. }) {
             v.push(Scenario::WithApi(clients::Api::Forward, Box::new(sc.clone())));
             v.push(Scenario::WithApi(clients::Api::Mixed, Box::new(sc)));
+        }
+    }
+    for kind in [Kind::Async, Kind::Ws] {
+        for k in [0usize, 10, 48, 66, 5000, cap, 19_000] {
+            for then in [Then::Notify, Then::ForwardNotify, Then::Batch] {
+                if then == Then::ForwardNotify && kind == Kind::Ws {
+                    continue;
+                }
+                v.push(Scenario::ClientAbandonThen { kind, k, then });
+            }
+        }
+        for n in [8usize, 32] {
+            for stall in [None, Some(0), Some(47), Some(cap), Some(3 * cap + 1), Some(usize::MAX - 7), Some(usize::MAX - 4096)] {
+                v.push(Scenario::ManyWriters { kind, n, stall });
+            }
         }
     }
     v
@@ -165,9 +192,9 @@ async fn client_writers(kind: Kind, pads: &[usize], stall: Option<usize>) -> (Ba
     (bad, flags | 2)
 }
 
-async fn client_abandon(kind: Kind, k: usize, queued: bool) -> (Bad, u64) {
+async fn client_abandon(kind: Kind, k: usize, queued: bool, then: Option<Then>) -> (Bad, u64) {
     let mut bad = Bad::new();
-    let ctx = format!("{} abandoned after {k} bytes (next call {})", kind.name(), if queued { "already queued on the writer" } else { "issued afterwards" });
+    let ctx = format!("{} abandoned after {k} bytes (next call {}{})", kind.name(), if queued { "already queued on the writer" } else { "issued afterwards" }, then.map(|t| format!(", then {t:?}")).unwrap_or_default());
     let Conn { cli, mut peer, .. } = clients::connect(kind).await;
     peer.ctl().a_to_b.set_credit(Some(k));
     let a = tokio::spawn(cli.call(1, None, 20_000));
@@ -193,6 +220,23 @@ async fn client_abandon(kind: Kind, k: usize, queued: bool) -> (Bad, u64) {
         None => tokio::spawn(cli.call(2, None, 0)),
     };
     memstream::settle().await;
+    // one more sender of another kind on the same connection
+    let extra: Option<tokio::task::JoinHandle<()>> = match (then, cli.clone()) {
+        (Some(Then::Notify), c) => Some(tokio::spawn(async move {
+            let _ = c.notify(3, 0).await;
+        })),
+        (Some(Then::Batch), c) => Some(tokio::spawn(async move {
+            let _ = tokio::time::timeout(Duration::from_secs(60), c.batch(vec![4, 5])).await;
+        })),
+        (Some(Then::ForwardNotify), Cli::Async(c)) => Some(tokio::spawn(async move {
+            let m = repe::Message::builder().id(77).notify(true).query_str("/p").body_bytes(b"{\"t\":6}".to_vec()).body_format(repe::BodyFormat::Json).build();
+            let _ = c.forward_message(&m).await;
+        })),
+        _ => None,
+    };
+    if extra.is_some() {
+        memstream::settle().await;
+    }
     peer.ctl().a_to_b.set_credit(None);
     memstream::settle().await;
     let wire = match &mut peer {
@@ -244,7 +288,92 @@ async fn client_abandon(kind: Kind, k: usize, queued: bool) -> (Bad, u64) {
     if rb == Res::Hang && bad.is_empty() {
         bad.push((format!("C05:{}:later-call-hangs-after-abandon", kind.name()), format!("{ctx}: the next call never returned")));
     }
+    if let Some(h) = extra {
+        h.abort();
+        let _ = h.await;
+        flags |= 8192;
+    }
     (bad, flags | 8)
+}
+
+async fn many_writers(kind: Kind, n: usize, stall: Option<usize>) -> (Bad, u64) {
+    let cap = 8192usize;
+    let classes = [0usize, 1, cap - 67, cap - 66, cap - 65, cap, cap + 1, 20_000, 3, 65_536];
+    let pads: Vec<usize> = (0..n).map(|i| classes[i % classes.len()]).collect();
+    let mut bad = Bad::new();
+    let ctx = format!("{} {n} concurrent writers, stall {stall:?}", kind.name());
+    let Conn { cli, mut peer, .. } = clients::connect(kind).await;
+    match stall {
+        Some(k) if k > usize::MAX / 2 => peer.ctl().a_to_b.set_write_chunk(usize::MAX - k),
+        Some(k) => peer.ctl().a_to_b.set_credit(Some(k)),
+        None => {}
+    }
+    let mut hs = Vec::new();
+    let mut ns = Vec::new();
+    let mut want = Vec::new();
+    for (i, pad) in pads.iter().enumerate() {
+        let tag = 100 + i as u64;
+        want.push(tag);
+        if i % 4 == 3 {
+            ns.push(tokio::spawn(cli.notify(tag, *pad)));
+        } else {
+            hs.push((tag, tokio::spawn(cli.call(tag, None, *pad))));
+        }
+    }
+    memstream::settle().await;
+    let mut flags = 16384;
+    if stall.is_some_and(|k| k <= usize::MAX / 2) && peer.ctl().a_to_b.stalls() > 0 {
+        flags |= 1;
+    }
+    // the peer resumes reading, a few bytes at a time at first
+    if stall.is_some_and(|k| k <= usize::MAX / 2) {
+        for g in [1usize, 47, 1, cap, 5] {
+            peer.ctl().a_to_b.grant(g);
+            memstream::settle().await;
+        }
+    }
+    peer.ctl().a_to_b.set_credit(None);
+    let reqs = match peer.drain_requests().await {
+        Ok(r) => r,
+        Err(e) => {
+            bad.push((format!("C05:{}:torn-or-interleaved", kind.name()), format!("{ctx}: {e}")));
+            return (bad, flags);
+        }
+    };
+    if peer.partial_len() != 0 {
+        bad.push((format!("C05:{}:incomplete-frame", kind.name()), format!("{ctx}: {} bytes of an incomplete frame remain after all writers finished", peer.partial_len())));
+    }
+    let mut got: Vec<u64> = reqs.iter().filter_map(clients::tag_of).collect();
+    got.sort();
+    if got != want {
+        bad.push((format!("C05:{}:frames-differ-from-sent", kind.name()), format!("{ctx}: tags in the frames received {got:?}, tags sent {want:?}")));
+    }
+    for f in &reqs {
+        let v = serde_json::from_slice::<Value>(&f.body).ok();
+        let tag = v.as_ref().and_then(|v| v.get("t")).and_then(|t| t.as_u64());
+        let pad = v.as_ref().and_then(|v| v.get("p")).and_then(|p| p.as_str()).map(|p| (p.len(), p.bytes().all(|b| b == b'x')));
+        let want_pad = tag.and_then(|t| pads.get((t - 100) as usize)).copied();
+        let ok = match (want_pad, pad) {
+            (Some(0), None) => true,
+            (Some(w), Some((l, allx))) => w == l && allx,
+            _ => false,
+        };
+        if !ok {
+            bad.push((format!("C05:{}:foreign-bytes-in-frame", kind.name()), format!("{ctx}: the frame with tag {tag:?} does not carry the body its caller sent")));
+            break;
+        }
+    }
+    let ids = clients::tag_ids(&reqs);
+    for (tag, h) in hs {
+        if let Some(id) = ids.get(&tag) {
+            peer.send(&clients::reply(*id)).await;
+        }
+        let _ = clients::join_call(h).await;
+    }
+    for h in ns {
+        let _ = h.await;
+    }
+    (bad, flags | 2)
 }
 
 // ------------------------------------------------------------------ AsyncServer
@@ -551,7 +680,9 @@ fn run_one(rt: &tokio::runtime::Runtime, sc: &Scenario) -> (Bad, u64) {
             (bad.into_iter().map(|(k, w)| (k, format!("{w} [AsyncClient API: {api:?} = forward_message for all / even-tagged calls]"))).collect(), flags)
         }
         Scenario::ClientWriters { kind, pads, stall } => rt.block_on(client_writers(*kind, pads, *stall)),
-        Scenario::ClientAbandon { kind, k, queued } => rt.block_on(client_abandon(*kind, *k, *queued)),
+        Scenario::ClientAbandon { kind, k, queued } => rt.block_on(client_abandon(*kind, *k, *queued, None)),
+        Scenario::ClientAbandonThen { kind, k, then } => rt.block_on(client_abandon(*kind, *k, false, Some(*then))),
+        Scenario::ManyWriters { kind, n, stall } => rt.block_on(many_writers(*kind, *n, *stall)),
         Scenario::AsyncServerWriteTimeout { k, pipelined } => rt.block_on(async_server_write_timeout(*k, *pipelined)),
         Scenario::AsyncServerStall { k, n, chunk } => rt.block_on(async_server_stall(*k, *n, *chunk)),
         Scenario::WsServerMixed { n, stall } => {
@@ -581,7 +712,7 @@ pub fn run(tier: Tier) -> ! {
         |(rt, bad, flagc, n), i| {
             let (b, flags) = run_one(rt, &all[i as usize]);
             *n += 1;
-            for bit in 0..13 {
+            for bit in 0..15 {
                 if flags & (1 << bit) != 0 {
                     *flagc.entry(bit).or_insert(0) += 1;
                 }
@@ -606,19 +737,19 @@ pub fn run(tier: Tier) -> ! {
         ctx.violation(k, w, json!({"scenario": format!("{:?}", all[i]), "index": i, "tier": tier.name()}));
     }
     let g = |b: u64| flagc.get(&b).copied().unwrap_or(0);
-    if !ctx.has_violation() && [0u64, 1, 2, 3, 4, 5, 6, 7, 9, 10, 11, 12].iter().any(|b| g(*b) == 0) {
+    if !ctx.has_violation() && [0u64, 1, 2, 3, 4, 5, 6, 7, 9, 10, 11, 12, 13, 14].iter().any(|b| g(*b) == 0) {
         ctx.machinery(format!("vacuous exploration: a scenario family never ran or never stalled: {flagc:?}"));
     }
     let coverage = json!({
         "evaluations": executed,
         "distinct_nontrivial": all.len(),
-        "rule": "forced-stall scripts: (a) 2-4 concurrent calls + a notify on AsyncClient / WebSocketClient with payload sizes straddling the 8 KiB writer buffer, the peer accepting exactly k bytes (k over header/query/buffer boundary classes) before resuming; (b) a large call abandoned after exactly k accepted bytes, followed by another call; (c) AsyncServer with a 1 s write timeout whose response stalls after k bytes past the deadline, and pipelined responses stalled then released; (d) WebSocket server with concurrent off-reader responses and handler-pushed notifies against a stalled peer; (e) blocking Server over loopback TCP with 24 MiB responses (peer stops reading past a 300 ms write timeout; three connections pipelining). Everything the peer receives must parse into whole frames, and nothing may follow an interrupted write.",
+        "rule": "forced-stall scripts: (a) 2-4 concurrent calls + a notify on AsyncClient / WebSocketClient with payload sizes straddling the 8 KiB writer buffer, the peer accepting exactly k bytes (k over header/query/buffer boundary classes) before resuming; (b) a large call abandoned after exactly k accepted bytes, followed by another call and then by a notify / a forwarded notify / a batch; (a') 8 and 32 concurrent writers (calls and notifies, pads cycling over the buffer-boundary classes) against a peer that stalls at offset k and then reads a few bytes at a time, or accepts at most 7 / 4096 bytes per write; (c) AsyncServer with a 1 s write timeout whose response stalls after k bytes past the deadline, and pipelined responses stalled then released; (d) WebSocket server with concurrent off-reader responses and handler-pushed notifies against a stalled peer; (e) blocking Server over loopback TCP with 24 MiB responses (peer stops reading past a 300 ms write timeout; three connections pipelining). Everything the peer receives must parse into whole frames, and nothing may follow an interrupted write.",
         "samples": samples.take(),
         "exhaustive": executed == all.len() as u64,
         "nonvacuity": {
             "client_writers_really_stalled": g(0), "client_writer_scenarios": g(1), "abandon_really_mid_write": g(2), "abandon_scenarios": g(3),
             "async_server_timeout_really_stalled": g(4), "async_server_timeout_scenarios": g(5), "async_server_stall_scenarios": g(6),
-            "ws_server_mixed_scenarios": g(7), "blocking_server_response_really_torn_by_timeout": g(8), "blocking_server_timeout_scenarios": g(9), "blocking_server_large_scenarios": g(10), "blocking_client_large_write_really_interrupted": g(11), "blocking_client_timeout_scenarios": g(12),
+            "ws_server_mixed_scenarios": g(7), "blocking_server_response_really_torn_by_timeout": g(8), "blocking_server_timeout_scenarios": g(9), "blocking_server_large_scenarios": g(10), "blocking_client_large_write_really_interrupted": g(11), "blocking_client_timeout_scenarios": g(12), "abandon_then_other_sender_scenarios": g(13), "many_writer_scenarios(8,32)": g(14),
         },
     });
     ctx.finish(
@@ -626,7 +757,7 @@ pub fn run(tier: Tier) -> ! {
         coverage,
         &[
             "in-memory rows are exact (write credit = stall offset, paused clock); the blocking Server rows depend on the kernel actually filling its socket buffers with a 24 MiB response (counter blocking_server_response_really_torn_by_timeout reports whether it did)",
-            "32 free-running writers are not explored; writer counts 2-4 under forced stalls are",
+            "32 writers are explored on the single-threaded runtime under forced stalls (their interleaving is what the stalls induce), not free-running on several OS threads",
         ],
     )
 }
